@@ -18,6 +18,7 @@
 -/
 import Proofs.CastBin
 import Proofs.IntText
+import Proofs.LineFloats
 
 namespace Jl.C12
 open Jl Cast
@@ -139,5 +140,59 @@ theorem float_partial (ext : Ext) (law : FloatLaw ext) :
 example : castNamed genTables Ext.empty "ToString" (.int .i8 (-128)) =
     .ok (.str [0x2D, 0x31, 0x32, 0x38]) := by
   rw [toString_int _ _ _ (by decide)]; simp [IntText.formatInt, IntText.natDigits, IntText.digitChar]
+
+/-! ### On the emitted BYTES: float columns through one line, given strconv's law (`Proofs/LineFloats`)
+
+  `LineFloats.float_line` characterises `jlLine` for one column declared numeric / string / auto with raw type float64 /
+  float32 on both sides completely, by the answers of the standard-library parameter (`ParseFloat` of the member's
+  text, `FormatFloat` of the value, json.Marshal's spelling). -/
+
+open Jl.Template Jl.LineFloats Jl.JsonQuote in
+/-- numeric(T) on both sides, the member a number literal that `ParseFloat` reads as a FINITE `T`: given the law of
+    strconv (`LineFloats.FloatLaw`, the same two fields as `C12.FloatLaw`) and that the rendering of a finite value is
+    a JSON number, the line is accepted, `{"k":<shortest rendering>}` is written, and fed back that line is accepted,
+    holds the SAME bit pattern in the column and is written back byte for byte. -/
+theorem float_line_fixed_point (ext : Ext) (law : LineFloats.FloatLaw ext) (hnumOK : FmtNumberOK ext)
+    (k : Bytes) (hk : sanitize k = k) (T : FT) (lit : Bytes) (r : Nat) (line : Bytes)
+    (hline : Json.unmarshal line = (.cons k (.num lit) .nil, true))
+    (hp : ext.parseFloat lit T.bits = some (some r))
+    (hfin : Float.isFinite T.fmt (T.narrow r) = true) :
+    ∃ out, ext.fmtFloat (T.widen (T.narrow r)) T.bits = some out ∧ JsonWrite.isValidNumber out = true ∧
+      getRow ⟨genTables, ext⟩ (withCol [] k .numeric T.ty) line =
+        .ok ([(k, .cell (T.dyn (T.narrow r)) .numeric T.ty)], none) ∧
+      jlLine ⟨genTables, ext⟩ (withCol [] k .numeric T.ty) (withCol [] k .numeric T.ty) line =
+        .ok (LineTime.objText k out ++ [0x0A], none) ∧
+      getRow ⟨genTables, ext⟩ (withCol [] k .numeric T.ty) (LineTime.objText k out) =
+        .ok ([(k, .cell (T.dyn (T.narrow r)) .numeric T.ty)], none) ∧
+      jlLine ⟨genTables, ext⟩ (withCol [] k .numeric T.ty) (withCol [] k .numeric T.ty)
+        (LineTime.objText k out) = .ok (LineTime.objText k out ++ [0x0A], none) :=
+  numeric_line_fixed_point_law ext law hnumOK k hk T lit r line hline hp hfin
+
+/-- The two statements of the law are the same statement. -/
+theorem float_law_same (ext : Ext) (law : FloatLaw ext) : LineFloats.FloatLaw ext := ⟨law.rt64, law.rt32⟩
+
+open Jl.Template Jl.LineFloats in
+/-- "Non-finite values never produce a number that marshals", on the line: a NaN or ±Inf held by a numeric(T) or
+    auto(T) column is never written, whatever the standard-library parameter leaves unanswered — GIVEN that it answers
+    as the library does on non-finite values (`NonFiniteLaw`: `FormatFloat` says NaN / +Inf / -Inf, json.Marshal
+    refuses).  Under string(T) such a value IS written, as the string "NaN" (`LineFloats.nonfinite_string_written`). -/
+theorem nonfinite_never_written_on_a_line (ext : Ext) (nf : NonFiniteLaw ext) (k : Bytes) {fi fo : Format}
+    (hfi : FloatFmt fi) (hfo : fo = .numeric ∨ fo = .auto) (T : FT) (lit : Bytes) (r : Nat)
+    (line : Bytes) (jv : JV)
+    (hline : Json.unmarshal line = (.cons k jv .nil, true)) (hjv : LineInts.IsCarrierJV jv lit)
+    (hp : ext.parseFloat lit T.bits = some (some r))
+    (hinf : Float.isFinite T.fmt (T.narrow r) = false) (b : Bytes) :
+    jlLine ⟨genTables, ext⟩ (withCol [] k fi T.ty) (withCol [] k fo T.ty) line ≠ .ok (b, none) :=
+  nonfinite_never_written ext nf k hfi hfo T lit r line jv hline hjv hp hinf b
+
+open Jl.Template Jl.LineFloats in
+/-- A literal out of the type's range (1e400 under float64, 1e39 under float32: `ParseFloat` answers with an error) is
+    rejected, nothing written — never an infinity or a clamped value. -/
+theorem out_of_range_literal_rejected (ext : Ext) (k : Bytes) (T : FT) (lit : Bytes) (line : Bytes)
+    (hline : Json.unmarshal line = (.cons k (.num lit) .nil, true))
+    (hp : ext.parseFloat lit T.bits = some none) :
+    jlLine ⟨genTables, ext⟩ (withCol [] k .numeric T.ty) (withCol [] k .numeric T.ty) line =
+      .ok ([], some .unsupportedImport) :=
+  numeric_line_out_of_range ext k T lit line hline hp
 
 end Jl.C12
